@@ -159,12 +159,18 @@ def go_detail(hbin, hexes):
     return res, out
 
 
+_reported = set()
+
+
 def ambiguity_violation(rep, hbin, h, rows, source):
+    if h in _reported:
+        return True
     det, _ = go_detail(hbin, [h])
     d = det.get(h, {"mask": "", "imports": []})
     accepted = [i for i, c in enumerate(d["mask"]) if c == "1"]
     if len(accepted) < 2:
         return False
+    _reported.add(h)
     rep.violation({"property": PROP, "kind": "ambiguous-literal", "input": show(h), "input_hex": h,
                    "accepted_by": [rows[i][0] for i in accepted if i < len(rows)],
                    "each_imports": d["imports"], "found_by": source,
@@ -424,7 +430,7 @@ def run(rep):
         absorb_r(st)
         amb_all += amb
         rmism += mism
-    for h, idx in amb_all[:3]:
+    for h, idx in sorted(set((h, tuple(i)) for h, i in amb_all), key=lambda x: (len(x[0]), x[0]))[:3]:
         if ambiguity_violation(rep, hbin, h, rows, "generated strings (Go-side search)"):
             found_input = True
     if rmism:
@@ -463,11 +469,12 @@ def run(rep):
         samples.append({"float_case": l[:200]})
 
     def mk_num(cls, x, n):
-        return {"property": PROP, "kind": cls, "input": show(x[2]), "input_hex": x[2], "what": x[1], "cases_this_run": n,
-                "implementation_line": x[3][:600], "mode": "nums"}
+        # (the seed-dependent ExportBinaryNBits widths and the per-run count stay out of the replay file)
+        return {"property": PROP, "kind": cls, "input": show(x[2]), "input_hex": x[2], "what": x[1],
+                "implementation_line": re.sub(r" nb=\S*", "", x[3])[:600], "mode": "nums"}
 
     def mk_float(cls, x, n):
-        return {"property": PROP, "kind": cls, "family": x[2], "input": x[3], "what": x[1], "cases_this_run": n, "mode": "floats"}
+        return {"property": PROP, "kind": cls, "family": x[2], "input": x[3], "what": x[1], "mode": "floats"}
 
     nv = len(rep.violations)
     report_classes(rep, nfails, known, mk_num)
@@ -480,6 +487,15 @@ def run(rep):
     fst.pop("distinct_set", None)
     fdistinct = len(fst.pop("distinct"))
     by_bits = nst_all.get("by_bits", {})
+    buckets = {}
+    for k, v in by_bits.items():
+        try:
+            w = int(k)
+        except ValueError:
+            w = -1
+        b = "64" if w == 64 else ">64" if w > 64 else "%d-%d" % ((w - 1) // 8 * 8 + 1, min((w - 1) // 8 * 8 + 8, 63)) if w > 0 else "?"
+        buckets[b] = buckets.get(b, 0) + v
+    nst_all["by_bits"] = buckets
     rep.coverage.update({
         "evaluations": rst["strings"] * max(1, len(rows)) + nst_all.get("literals", 0) + fst["cases"],
         "distinct_nontrivial": len(rdistinct) + len(ndistinct) + fdistinct,
